@@ -774,4 +774,5 @@ func runExtra(run *ev.Run) {
 	runExtraArgs(run)
 	runExtraKeyset(run)
 	runExtraVerifiers(run)
+	runWire(run)
 }
